@@ -186,7 +186,10 @@ pub fn c01_focus() -> Focus {
 }
 
 pub fn c01_scn(name: &str, full: bool) -> ChatScn {
-    let mut s = ChatScn::new(name, Cfg::default(), vec![part(0, "alice", "alicia", "au"), part(1, "bob", "bobby", "bu"), part(2, "carol", "caro", "cu"), part(3, "dave", "davy", "du")], 0);
+    // #y is declared in the configuration: it outlives its members, and who is on it is
+    // decided by the history all the same (a member that disconnected is not a member)
+    let cfg = Cfg { label: "preconfigured-#y".into(), channels: vec![crate::scn::CfgChan { name: "#y".into(), ..Default::default() }], ..Default::default() };
+    let mut s = ChatScn::new(name, cfg, vec![part(0, "alice", "alicia", "au"), part(1, "bob", "bobby", "bu"), part(2, "carol", "caro", "cu"), part(3, "dave", "davy", "du")], 0);
     let churn: Vec<&'static str> = if full {
         vec!["JOIN #x", "JOIN #y", "PART #x", "KICK #x {peer}", "NICK {alt}", "NICK {peer}", "MODE #x +v {peer}", "MODE #x +h {peer}", "MODE #x +o {peer}", "MODE #x -o {peer}", "MODE #x +q {peer}", "MODE #x +n", "MODE #x -n", "MODE #x +s", "CAP END", "QUIT"]
     } else {
@@ -231,9 +234,11 @@ pub fn c01_ghost(full: bool) -> ChatScn {
 pub fn c10_scn(name: &str, full: bool) -> ChatScn {
     let mut s = ChatScn::new(name, Cfg::default(), vec![part(0, "alice", "alicia", "au"), part(1, "bob", "bobby", "bu"), part(2, "carol", "caro", "cu")], 0);
     s.prelude = vec![(0, "JOIN #c".into()), (2, "JOIN #c".into())];
-    let mut a: Vec<&'static str> = vec!["MODE #c +n", "MODE #c -n", "MODE #c +s", "MODE #c -s", "MODE #c +m", "MODE #c -m", "MODE #c +b bob!*@*", "MODE #c -b bob!*@*", "MODE #c +e bob!*@*", "MODE #c -e bob!*@*", "MODE #c +e zed!*@*", "MODE #c +v bob", "MODE #c -v bob"];
+    let mut a: Vec<&'static str> = vec!["MODE #c +n", "MODE #c -n", "MODE #c +s", "MODE #c -s", "MODE #c +m", "MODE #c -m", "MODE #c +b bob!*@*", "MODE #c -b bob!*@*", "MODE #c +e bob!*@*", "MODE #c -e bob!*@*", "MODE #c +e zed!*@*", "MODE #c +v bob", "MODE #c -v bob",
+        // a mask whose literal run after the star overlaps itself in the sender's host (127.0.0.1)
+        "MODE #c +b *!*@*.0.1"];
     if full {
-        a.extend(["MODE #c -e zed!*@*", "MODE #c +b *!*@127.0.0.1", "MODE #c +h bob", "MODE #c +e *!~bu@*"]);
+        a.extend(["MODE #c -e zed!*@*", "MODE #c +b *!*@127.0.0.1", "MODE #c +h bob", "MODE #c +e *!~bu@*", "MODE #c -b *!*@*.0.1", "MODE #c +e *b!*@*"]);
     }
     for t in a {
         s.alphabet_for.push((0, t));
@@ -472,6 +477,10 @@ pub fn c08_scn(name: &str, full: bool) -> ChatScn {
         }
     }
     s.alphabet_for.push((3, "MODE #c +i"));
+    // "shown by later MODE/NAMES/WHO queries": also after the holder of a rank changed its nick
+    for slot in 1..3 {
+        s.alphabet_for.push((slot, "NICK {alt}"));
+    }
     s.focus = c08_focus();
     s.invariants = vec!["rank-set"];
     for slot in 0..4 {
